@@ -963,7 +963,53 @@ def oracle_msgtree(run, ops, impl, pid):
 
 
 def oracle_c02(run, ops, impl):
+    if run["model"] != "msgtree":
+        return []
     return oracle_msgtree(run, ops, impl, "C02")
+
+
+def cross_oracle_evmtx(prop):
+    """evmtx runs: the Lean model EvmTx is the admission pipeline the theorems speak about (nonce matched and consumed once,
+    gasLimit x price taken from the signer of that very message up front, refund of the unused part). Where the implementation's
+    observation differs from the model's on an included tx, an account that signed a message of that tx and ends up RICHER than the
+    model says, or with a different sequence, is a concrete failing input (it paid less than the pipeline charges / its nonce was
+    not consumed exactly once)."""
+    def f(all_runs):
+        out = []
+        for (run, seed, ops, impl, model) in all_runs:
+            if run["model"] != "evmtx":
+                continue
+            n = min(len(ops), len(impl), len(model))
+            for i in range(n):
+                if impl[i] == model[i]:
+                    continue
+                a = ops[i].split()
+                if len(a) < 3 or a[1] != "tx":
+                    break
+                try:
+                    ri, si = parse_evmtx_obs(impl[i])
+                    rm, sm = parse_evmtx_obs(model[i])
+                    ms = parse_evm_msgs(a[2])
+                except Exception:
+                    break
+                signers = {m["sender"] for m in ms}
+                for acc in sorted(signers):
+                    if acc not in si["acct"] or acc not in sm["acct"]:
+                        continue
+                    (qi, bi), (qm, bm) = si["acct"][acc], sm["acct"][acc]
+                    if ri != "rejected" and bi > bm:
+                        w = V("%s:signer-paid-less-than-the-admission-pipeline-charges" % prop,
+                              {"line": i + 1, "op": ops[i][:400], "signer": acc, "balance": bi, "balance_by_pipeline": bm, "result": ri})
+                        w["seed"], w["model"] = seed, "evmtx"
+                        out.append(w)
+                    if qi != qm:
+                        w = V("%s:signer-sequence-differs-from-the-admission-pipeline" % prop,
+                              {"line": i + 1, "op": ops[i][:400], "signer": acc, "sequence": qi, "sequence_by_pipeline": qm, "result": ri})
+                        w["seed"], w["model"] = seed, "evmtx"
+                        out.append(w)
+                break   # only the first divergence of a run is meaningful (the model state is off afterwards)
+        return out
+    return f
 
 
 def oracle_c17(run, ops, impl):
@@ -981,9 +1027,13 @@ MSGTREE_RULE = ("each case is one block of DeliverTx calls on the real app (full
 
 PROPS["C02"] = {
     "modules": ["NibiruProofs.C02"],
-    "runs": [{"model": "msgtree", "n_quick": 120, "n_thorough": 1500, "nontrivial": r"eth"}],
+    "runs": [{"model": "msgtree", "n_quick": 120, "n_thorough": 1500, "nontrivial": r"eth"},
+             {"model": "evmtx", "n_quick": 200, "n_thorough": 3000, "nontrivial": r"^ok A="}],
     "oracle": oracle_c02,
-    "rule": MSGTREE_RULE + "; non-trivial = the tx contains a MsgEthereumTx somewhere",
+    "cross_oracle": cross_oracle_evmtx("C02"),
+    "rule": MSGTREE_RULE + "; non-trivial = the tx contains a MsgEthereumTx somewhere | evmtx: what the EVM admission pipeline does for "
+            "each message of an accepted Ethereum tx (signature, nonce matched and consumed once, gasLimit x price from that message's "
+            "signer up front, refund) — the EvmTx model against full DeliverTx, incl. txs carrying several messages of different signers",
     "assumptions": ["an address recovered from an Ethereum signature cannot sign a Cosmos tx (eth_secp256k1 keys are refused by the SDK "
                     "signature decorators: exercised by the generator), is not a contract and not the gov account (hypothesis WF/CosmosSigned)",
                     "gov proposal content executes only after a vote, with the gov account as signer; the EthereumTx handler recovers "
@@ -1183,6 +1233,7 @@ EVMTX_RULE = ("each case is one block on a real NibiruApp driven through BeginBl
 
 PROPS["C07"] = {
     "modules": ["NibiruProofs.C07"],
+    "cross_oracle": cross_oracle_evmtx("C07"),
     "runs": [{"model": "evmtx", "n_quick": 250, "n_thorough": 4000, "nontrivial": r"^ok A="}],
     "oracle": oracle_c07,
     "rule": EVMTX_RULE,
@@ -1192,6 +1243,7 @@ PROPS["C07"] = {
 }
 PROPS["C05"] = {
     "modules": ["NibiruProofs.C05"],
+    "cross_oracle": cross_oracle_evmtx("C05"),
     "runs": [{"model": "evmtx", "n_quick": 250, "n_thorough": 4000, "nontrivial": r"^ok A="},
              {"model": "sdb", "n_quick": 300, "n_thorough": 4000, "nontrivial": r"^P:ACC="},
              {"model": "evmsupply", "n_quick": 120, "n_thorough": 1500, "no_model": True, "per_line": True, "nontrivial": r"^ok "}],
